@@ -7,6 +7,7 @@ CONSTANTS
   MaxLoss = 4
   MaxNegLoss = 1
   MaxRestarts = 0
+  MaxSlow = 0
   PeerModes <- ModesSL
   DenyReplies <- DenyOne
   AckTails <- TailsRssi
